@@ -9,6 +9,8 @@ import YarlProofs.Lemmas.FixLemmas
   Continued further in C07HeadlineMore4.lean (C07Regex.lean over Lemmas/Regex.lean: `Rfc.appendixB` is the regular
   expression printed in RFC 3986 Appendix B, `Rfc.authoritySplit` is a split by three regular expressions and agrees
   with the RFC 3986 §3.2 grammar; GAPS 6, 7, 10, 11).
+  Continued in C07HeadlineMore5.lean (C03Encoded.lean, C15ReachE.lean, added later: `encoded=True` on canonical text,
+  GAPS 2; the hypothesis `hrooted` over all entry points, GAPS 8).
 
   C07 | Parsing is the RFC 3986 decomposition of the input |
   "For every input string, the scheme, authority, path, query and fragment the library extracts equal the RFC 3986
@@ -239,7 +241,18 @@ GAPS:
     authority `C07_encBuildNetloc` (`authority=` verbatim, else user / password / host verbatim WITHOUT brackets or
     encoding, the port dropped iff it is the default of the scheme AS GIVEN), no cache; the four raw authority accessors
     are the `Rfc.authoritySplit` components of that stored TEXT (same adjustments as above); exactly the mode-independent
-    argument conflicts raise, `encoded=True` adds no check.  See GAPS 9.
+    argument conflicts raise, `encoded=True` adds no check (since library fix 7970b83 the two port-related conflict checks
+    test `port is not None`, so `port=0` counts as a given port in both modes; C07_headline_build_encoded_true_conflicts
+    already states it that way).  See GAPS 9.
+    EXTENDED (the case where "verbatim" and "canonicalised" coincide) by C03_encoded_true_on_canonical (C03Encoded.lean),
+    see C07_headline_encoded_true_on_canonical_text (C07HeadlineMore5.lean).  Proved: for EVERY text `s` that the
+    checker `canonicalB` (C04Decide.lean; a hand-written reading of "already canonical", C04Headline.lean GAPS 7)
+    accepts — both backends, every oracle assignment, no other hypothesis — `URL(s, encoded=True)` stores the Appendix-B
+    components of `s` ITSELF (no cleaning needed), these are the five parts `URL(s)` stores, the lazily derived
+    raw_user / raw_password / raw_host / explicit_port are the ones `encode_url` pre-filled for `URL(s)`, all 53
+    accessors of the model agree on the two objects, and both print `s`.  Outside canonical text the two modes differ
+    (by design); the exact line is C03Headline.lean GAPS 6 (inside `C04_Domain`: `canonicalB s` iff same parts and the
+    `encoded=True` object prints `s`).  Nothing new for `build(…, encoded=True)`.
  3. PARTLY CLOSED by C07_text_after_bracket_ignored (C07More.lean), see C07_headline_text_around_brackets_ignored,
     …_instances, …_url (C07HeadlineMore.lean): text between the closing ']' and the ':' AND text between the '@' and the
     '[' is silently dropped by `split_netloc` ("[::1]x:80" ≡ "[::1]:80", "x[::1]" ≡ "[::1]"; F-C03-bracket family).
@@ -299,8 +312,21 @@ GAPS:
     expressions of (a) are ours; for malformed authorities there is still nothing independent to compare with.
  8. NEW.  C07_headline_recompose_by_the_letter carries the hypothesis `hrooted` (under an authority the stored path is
     empty or rooted) for arbitrary `Url` records.  It holds for every parser result by Appendix B and for every URL
-    reachable through the auto-encoding API by C15_headline_reachable (C15Headline.lean), but that composition is not
-    made in this layer.  It is a GENUINE restriction for `build(…, encoded=True)` results, which store `path=` without
+    reachable through the auto-encoding API by C15_headline_reachable (C15Headline.lean), but that composition WAS not
+    made in this layer.
+    CLOSED (the composition; the restriction for `build(…, encoded=True)` stands and is now exact) by
+    C15_reachE_no_dot_segments, C15_reachE_inv, C15_buildEnc_inv_iff, C15_reachE_rootless_build_needed (C15ReachE.lean)
+    and C15_encoded_build_iff (C15More2.lean), see C07_headline_hrooted_all_entry_points,
+    C07_headline_recompose_by_the_letter_all_entry_points, C07_headline_hrooted_build_encoded_true_iff
+    (C07HeadlineMore5.lean).  Proved: `hrooted` holds for every URL of the closure `C15_ReachE` — ALL entry points of the
+    model (both constructor modes, both `build` modes, the 18 operations with Python-string arguments,
+    with_path / joinpath with `encoded=True`, `join`), with the three decidable C15 side conditions on the `encoded=True`
+    entry points that store text verbatim (`C15_CtorEncOK s`, `C15_BuildEncOK a`, `C15_WithPathEncOK u p`:
+    C15Headline.lean GAPS 4) — so for these URLs C07_headline_recompose_by_the_letter holds under its three
+    KNOWN-FINDING guards alone (`hport`, `hpath`, `hnoauth`).  The closure is the C15 one: its side conditions also ask
+    for "no dot segment", which `hrooted` by itself may not need (no theorem says whether "empty or rooted" alone is
+    preserved by every operation).  For a `build(…, encoded=True)` result `hrooted` holds IF AND ONLY IF, whenever
+    `authority=` or `host=` is non-empty, `path=` is empty or starts with '/'.  It remains a GENUINE restriction for `build(…, encoded=True)` results, which store `path=` without
     the "must start with '/'" check: `build(scheme='http', host='h', path='x', query_string='a b', encoded=True)` has
     the rootless path "x" under the authority "h" and `str()` "http://h/x?a b", not the concatenation "http://hx?a b"
     (C07_headline_recompose_by_the_letter_fails_for_rootless_build_encoded_true, C07HeadlineMore3.lean).  "There is a component" is read as "the accessor is non-empty" (the raw accessors cannot tell
